@@ -8,6 +8,7 @@
 package c09
 
 import (
+	"time"
 	"sync/atomic"
 	"bytes"
 	"encoding/json"
@@ -281,6 +282,53 @@ func purity(w *chain.World, b types.Block, bs consensus.V1BlockSupplement, txFau
 	if s, d := same("mutating the returned ApplyUpdate (aliasing)"); s != "" {
 		return "update-aliases-inputs", d
 	}
+	// copies share no memory: element copies ("Copy returns a deep copy of the element"). Every flip is undone right
+	// away (if the copy does share memory the flip lands in live data of this harness).
+	{
+		dA := chain.UpdateDigest(au1)
+		flipFC := func(e types.FileContractElement) {
+			cp := e.Copy()
+			for i := range cp.FileContract.ValidProofOutputs {
+				cp.FileContract.ValidProofOutputs[i].Value.Lo ^= 1
+			}
+			for i := range cp.FileContract.MissedProofOutputs {
+				cp.FileContract.MissedProofOutputs[i].Address[0] ^= 0xFF
+			}
+		}
+		bad := ""
+		for _, d := range au1.FileContractElementDiffs() {
+			flipFC(d.FileContractElement)
+			if chain.UpdateDigest(au1) != dA {
+				bad = "mutating the proof outputs of FileContractElement.Copy() changed the element it was copied from (the update's diff)"
+			}
+			flipFC(d.FileContractElement)
+		}
+		for i := range bs.ExpiringFileContracts {
+			flipFC(bs.ExpiringFileContracts[i])
+			if s, d := same("mutating FileContractElement.Copy()"); s != "" {
+				bad = d
+			}
+			flipFC(bs.ExpiringFileContracts[i])
+		}
+		for i := range bs.Transactions {
+			for j := range bs.Transactions[i].RevisedFileContracts {
+				flipFC(bs.Transactions[i].RevisedFileContracts[j])
+				if s, d := same("mutating FileContractElement.Copy()"); s != "" {
+					bad = d
+				}
+				flipFC(bs.Transactions[i].RevisedFileContracts[j])
+			}
+		}
+		if bad != "" {
+			return "copy-aliases-original|FileContractElement", bad
+		}
+		ae := types.AttestationElement{Attestation: types.Attestation{Key: "k", Value: []byte{1, 2, 3}}}
+		cp := ae.Copy()
+		cp.Attestation.Value[0] ^= 0xFF
+		if ae.Attestation.Value[0] != 1 {
+			return "copy-aliases-original|AttestationElement", "mutating the value of AttestationElement.Copy() changed the original"
+		}
+	}
 	// copies share no memory
 	for ti := range b.V2Transactions() {
 		t := &b.V2.Transactions[ti]
@@ -352,12 +400,46 @@ func scribbleTxn(t *types.V2Transaction) {
 	for i := range t.ArbitraryData {
 		t.ArbitraryData[i] ^= 0xFF
 	}
+	// everything reachable through a pointer, an interface or a nested slice
+	for i := range t.FileContractResolutions {
+		if r, ok := t.FileContractResolutions[i].Resolution.(*types.V2FileContractRenewal); ok && r != nil {
+			r.NewContract.Filesize ^= 1
+			r.FinalRenterOutput.Value.Lo ^= 1
+			r.RenterSignature[0] ^= 0xFF
+		}
+	}
+	if t.NewFoundationAddress != nil {
+		(*t.NewFoundationAddress)[0] ^= 0xFF
+	}
+	var pol func(p types.SpendPolicy)
+	pol = func(p types.SpendPolicy) {
+		switch pt := p.Type.(type) {
+		case types.PolicyTypeThreshold:
+			for i := range pt.Of {
+				pol(pt.Of[i])
+				pt.Of[i] = types.PolicyAbove(424242)
+			}
+		case types.PolicyTypeUnlockConditions:
+			for i := range pt.PublicKeys {
+				for j := range pt.PublicKeys[i].Key {
+					pt.PublicKeys[i].Key[j] ^= 0xFF
+				}
+				pt.PublicKeys[i].Algorithm[0] ^= 0xFF
+			}
+		}
+	}
+	for i := range t.SiacoinInputs {
+		pol(t.SiacoinInputs[i].SatisfiedPolicy.Policy)
+	}
+	for i := range t.SiafundInputs {
+		pol(t.SiafundInputs[i].SatisfiedPolicy.Policy)
+	}
 }
 
 func menu(w *chain.World) []chain.Action {
 	return []chain.Action{
 		chain.V1Pay(true, 2), chain.V1Chain(), chain.V1SF(true), chain.V1Form(1, 2, 100), chain.V1Revise("pay"), chain.V1Proof(false),
-		chain.V2Pay(chain.AddrV2, true, 2), chain.V2Pay(chain.AddrThresh, true, 2), chain.V2Chain(chain.AddrV2), chain.V2SF(true), chain.V2Form(1, 2, 100), chain.V2Form(0, 1, 10), chain.V2Revise("pay"), chain.V2Renew("partial"), chain.V2Proof(), chain.V2Expire(), chain.V2Attest(),
+		chain.V2Pay(chain.AddrV2, true, 2), chain.V2Pay(chain.AddrThresh, true, 2), chain.V2Chain(chain.AddrV2), chain.V2SF(true), chain.V2Form(1, 2, 100), chain.V2Form(0, 1, 10), chain.V2Revise("pay"), chain.V2Renew("partial"), chain.V2Proof(), chain.V2Expire(), chain.V2Attest(), chain.V2Foundation(false), chain.V2Pay(chain.AddrV1, false, 1),
 		chain.MixedChain(), // a v2 transaction spending what a v1 transaction of the same block created
 		// same-block interactions (several MidState code paths per element): the purity bundle incl. the decode(encode()) copy runs on them too
 		chain.Seq("v1revise-twice", chain.V1Revise("pay"), chain.V1Revise("grow")), chain.Seq("v1revise+proof", chain.V1Revise("pay"), chain.V1Proof(false)), chain.Seq("v1form+revise", chain.V1Form(1, 2, 100), chain.V1Revise("pay")),
@@ -722,6 +804,26 @@ func run(c *vf.Ctx) {
 			c.Count("purity_bundles_valid", 1)
 			if sig, desc := purity(prev, a.B, a.BS, false); sig != "" {
 				x.Violate("purity|"+sig, desc, path)
+			}
+			// the same block as its miner holds it before it ever went over the wire: a timestamp with a sub-second part.
+			// ID, encoding and decoded copy are those of a.B; the state reached must be the same
+			{
+				sub := a.B
+				sub.Timestamp = a.B.Timestamp.Add(700 * time.Millisecond)
+				var st consensus.State
+				var verr error
+				if p, _ := vf.Try(func() {
+					if verr = consensus.ValidateBlock(prev.CS, sub, a.BS); verr == nil {
+						st, _ = consensus.ApplyBlock(prev.CS, sub, a.BS, prev.TargetTimestamp())
+					}
+				}); p != nil {
+					x.Violate("purity|sub-second-timestamp|panic", fmt.Sprintf("panic on the block with a sub-second timestamp: %v", p), path)
+				} else if verr != nil {
+					x.Violate("purity|sub-second-timestamp|verdict", fmt.Sprintf("block %v accepted, the same block (same id) with a sub-second part in its timestamp rejected: %v", a.B.ID(), verr), path)
+				} else if sub.ID() == a.B.ID() && !bytes.Equal(chain.StateBytes(st), chain.StateBytes(w.CS)) {
+					x.Violate("purity|sub-second-timestamp|state", "applying a block whose in-memory timestamp has a sub-second part reaches a different state than applying its decode(encode()) copy (same block id)", path)
+				}
+				c.Count("sub_second_timestamp_variants", 1)
 			}
 			// invalid variants
 			if n := len(a.B.V2Transactions()); n > 0 {
